@@ -14,6 +14,8 @@ Definition history_oracle (input o : json) : option string :=
   else if (g "disclosures" <? numN (jget "min_disclosures" input))%N then Some "history shorter than the property requires (disclosures)"
   else if (g "decoys" <? numN (jget "min_decoys" input))%N then Some "history shorter than the property requires (decoys)"
   else if (g "min_salt_bytes" <? 16)%N then Some "a salt decodes to fewer than 16 bytes"
+  else if negb (g "salt_bits_constant" =? 0)%N then Some "a bit position has the same value in every byte of every salt: the salts carry fewer than 128 random bits"
+  else if (g "salt_byte_values_seen" <? 250)%N then Some "the bytes of the salts take only a part of the 256 values: the salts carry fewer than 128 random bits"
   else if negb (g "dup_salts" =? 0)%N then Some "a salt repeats across disclosures or issuances"
   else if negb (g "dup_digests" =? 0)%N then Some "a digest repeats across claims or issuances"
   else if negb (g "dup_decoys" =? 0)%N then Some "a decoy digest repeats: the decoy space is small enough to enumerate"
